@@ -61,3 +61,23 @@ package config
 //@   props C18
 //@   ensures documented_values_accepted: docLevel(c.Logging.Level) && docFormat(c.Logging.Format) ==> result == nil
 //@   ensures unknown_values_rejected: result == nil ==> tolLevel(c.Logging.Level) && tolFormat(c.Logging.Format)
+
+//@ pred docBackend(b BackendConfig) := b.Name != "" && b.Address != "" && b.Weight >= 0
+//@ pred docBackends(c *Config) := len(c.Backends) > 0 && (forall i int :: {c.Backends[i]} 0 <= i && i < len(c.Backends) ==> docBackend(c.Backends[i]))
+//@ func (*Config).validateBackends
+//@   props C18
+//@   ensures exact: result == nil <==> docBackends(c)
+//@ loop (*Config).validateBackends #0
+//@   props C18
+//@   invariant idx: rangeindex < len(c.Backends)
+//@   invariant checked: forall k int :: {c.Backends[k]} 0 <= k && k <= rangeindex ==> docBackend(c.Backends[k])
+//@   decreases len(c.Backends) - rangeindex
+
+// The validator returns on the first failing section; over the product of all sections it accepts exactly the
+// documented configurations (logging: documented values accepted, unknown ones rejected).
+//@ pred docAllButLogging(c *Config) := docBackends(c) && docServer(c) && docTimeouts(c) && docStrategy(c.LoadBalancer.Strategy) && docPool(c)
+//@      && docHealth(c) && docRateLimit(c) && docBreaker(c) && docMetrics(c) && docAdmin(c)
+//@ func (*Config).Validate
+//@   props C18
+//@   ensures documented_configurations_load: docAllButLogging(c) && docLevel(c.Logging.Level) && docFormat(c.Logging.Format) ==> result == nil
+//@   ensures invalid_configurations_rejected: result == nil ==> docAllButLogging(c) && tolLevel(c.Logging.Level) && tolFormat(c.Logging.Format)
